@@ -170,6 +170,17 @@ def in_claim(node):
     return True
 
 
+def _only_wrappers(node):
+    k = node[0]
+    if k in ('w', 'wsig', 'wpath'):
+        return True
+    if k in ('list', 'tuple'):
+        return bool(node[1]) and all(_only_wrappers(c) for c in node[1])
+    if k == 'dict':
+        return bool(node[1]) and all(kn[0] in ('kw',) and _only_wrappers(v) for kn, v in node[1])
+    return False
+
+
 def vleaves(node, out):
     k = node[0]
     if k in ('pint',):
@@ -322,12 +333,16 @@ def build(family, p):
     kinds = vleaves(sh, [])
     params = [('v%d' % i, {'int': int, 'bool': bool, 'str': str}[k]) for i, (k, _) in enumerate(kinds)]
     want = ref_infer(sh)
+    exact = _only_wrappers(sh)
 
     def h(*args):
         shapes.assume_leaves(kinds, args, assume)
         py, exp = vbuild(sh, iter(args), marshal)
         sig = marshal.sigFromPy(py)
-        check(sig == want, 'inferred signature differs from the documented inference')
+        if exact:
+            # only explicit wrapper types (and containers of them) pin the signature; for plain Python values the
+            # statement asks for *a* single complete type under which the value round-trips, not a particular one
+            check(sig == want, 'explicit wrapper types must select exactly their DBus type')
         check(len(split(sig)) == 1, 'inferred signature is not a single complete type')
         n, chunks = marshal.marshal('v', [py], off, le)
         data = b'\0' * off + b''.join(chunks)
